@@ -179,6 +179,6 @@ def run(rep, prop="C01"):
     try:
         n += prove(rep, nmfu, program, prop)
     except (Unsupported, NeedFork, KeyError, AttributeError) as e:
-        rep.undecided_ob(f"{prop}/pyvc/front-end/engine", f"outside the modelled Python subset: {type(e).__name__}: {e}")
+        rep.unavailable(f"{prop}/pyvc/front-end/engine", f"outside the modelled Python subset: {type(e).__name__}: {e}")
     n += leaf_proofs.run(rep, prop, ["DirectMatch", "CaseDirectMatch", "EndMatch"], nmfu, program)
     return n
